@@ -313,7 +313,9 @@ func (g *DocGen) val(t *Ty, depth int) string {
 		}
 		var names []string
 		for _, f := range recFields {
-			if g.r.P(9, 10) {
+			// (records of big documents are complete, so that calls over them
+			// succeed unless the deliberate late poison is hit)
+			if g.big || g.r.P(9, 10) {
 				names = append(names, f.name)
 			}
 		}
